@@ -176,31 +176,16 @@ def build_rows(sizes, mono=None, unimod=None, ew=(), tz=(), mdom=(), rdom=(),
 
 
 def nnls_project(A, w0, maxiter=None):
-  """Exact Euclidean projection of w0 onto the cone {w: A w <= 0}.
-  Dual: min ||A^T lam - w0||, lam >= 0; projection = w0 - A^T lam."""
-  if A.shape[0] == 0:
-    return w0.copy()
-  lam, _ = so.nnls(A.T, w0, maxiter=maxiter or 50 * A.shape[0] + 1000)
-  return w0 - A.T @ lam
+  """Exact Euclidean projection of w0 onto the cone {w: A w <= 0}, KKT
+  certified (see oracles/qp.py).  None if no solver could be certified."""
+  from tflv.oracles import qp
+  return qp.project_cone(A, w0)
 
 
 def ldp_project(G, h, w0, maxiter=None):
-  """Projection of w0 onto {w: G w <= h} (inhomogeneous) by Lawson-Hanson LDP:
-  substitute z = w - w0:  min ||z|| s.t. G z <= h - G w0."""
-  if G.shape[0] == 0:
-    return w0.copy()
-  hh = h - G @ w0
-  # LDP: min ||z|| s.t. (-G) z >= -hh.   E = [(-G)^T; (-hh)^T], f = e_{n+1}
-  n = G.shape[1]
-  E = np.vstack([(-G).T, (-hh)[None, :]])
-  f = np.zeros(n + 1)
-  f[n] = 1.0
-  u, _ = so.nnls(E, f, maxiter=maxiter or 50 * G.shape[0] + 1000)
-  r = E @ u - f
-  if abs(r[n]) < 1e-14:
-    return None  # infeasible
-  z = -r[:n] / r[n]
-  return w0 + z
+  """Certified projection of w0 onto {w: G w <= h}; None if uncertified."""
+  from tflv.oracles import qp
+  return qp.project_polyhedron(G, h, w0)
 
 
 # --------------------------------------------------------------------------
